@@ -72,15 +72,23 @@ def _dimensions(ctx, mod):
                     par = _parser_of(val)
                     if par:
                         init[key.value] = (par[0], par[2], node)
+            # T[k] -= E   or   T[k] = T[k] - E
+            tgt, amount = None, None
             if isinstance(node, ast.AugAssign) and isinstance(
-                    node.op, ast.Sub) and isinstance(node.target,
-                                                     ast.Subscript) and \
-                    isinstance(node.target.slice, ast.Constant):
-                par = _parser_of(K.rexpr(func, node.value))
+                    node.op, ast.Sub):
+                tgt, amount = node.target, node.value
+            elif isinstance(node, ast.Assign) and len(node.targets) == 1 and \
+                    isinstance(node.value, ast.BinOp) and isinstance(
+                        node.value.op, ast.Sub) and \
+                    N.txt(node.value.left) == N.txt(node.targets[0]):
+                tgt, amount = node.targets[0], node.value.right
+            if isinstance(tgt, ast.Subscript) and \
+                    isinstance(tgt.slice, ast.Constant):
+                par = _parser_of(K.rexpr(func, amount))
                 if par:
-                    sub_[node.target.slice.value] = (par[0], par[2], node)
+                    sub_[tgt.slice.value] = (par[0], par[2], node)
                 else:
-                    sub_[node.target.slice.value] = (None, None, node)
+                    sub_[tgt.slice.value] = (None, None, node)
         table[(fname, 'init')] = init
         table[(fname, 'subtract')] = sub_
     chk = mod.functions.get('_check_limit')
@@ -340,8 +348,14 @@ def _check_before_write(ctx, mod):
                 K.exhaustive_loop(ctx, 'C19.3', func, lp,
                                   '%s accounting over the listing' % fname)
         facts = N.must_facts(graph, nz)
-        subs = [n for n in graph.nodes if n.kind == 'stmt' and
-                isinstance(n.ast, ast.AugAssign)]
+        subs = [n for n in graph.nodes if n.kind == 'stmt' and (
+            isinstance(n.ast, ast.AugAssign) or (
+                isinstance(n.ast, ast.Assign) and
+                len(n.ast.targets) == 1 and
+                isinstance(n.ast.targets[0], ast.Subscript) and
+                isinstance(n.ast.value, ast.BinOp) and
+                isinstance(n.ast.value.op, ast.Sub) and
+                N.txt(n.ast.value.left) == N.txt(n.ast.targets[0])))]
         # <loop variable>['_id'] != <third parameter>
         oldp = func.params()[2]
         ok = bool(subs)
